@@ -208,7 +208,7 @@ fn message(rng: &mut Rng, len: usize) -> Vec<u8> {
 }
 
 pub fn run(ctx: &Ctx) {
-    ctx.rule("cases = arrival histories of fragments derived from an original message the protocol's way (first fragment numbered n and carrying the start, counting down to 1): all n! arrival orders for n <= 6 (quick) / 7 (thorough) x cut patterns incl. empty fragments; random orders for n <= 64; duplicates, id 0 and out-of-range ids injected; 2..4 sequences with arbitrary 64-bit ids interleaved; expiry; evaluations = fragment arrivals whose return value was compared with the sequential model; distinct = distinct (n, arrival order hash, cut pattern, injected-noise kind)");
+    ctx.rule("cases = arrival histories of fragments derived from an original message the protocol's way (first fragment numbered n and carrying the start, counting down to 1): all n! arrival orders for n <= 6 (quick) / 7 (thorough) x cut patterns incl. empty fragments; random orders for n <= 64; every single duplicate (header or continuation) at every later position of every order for n <= 4/5; random duplicates, id 0 and out-of-range ids injected; 2..4 sequences with arbitrary 64-bit ids interleaved; expiry; evaluations = fragment arrivals whose return value was compared with the sequential model; distinct = distinct (n, arrival order hash, cut pattern, injected-noise kind)");
     ctx.assume("a duplicate fragment carries the same bytes as the original (conforming peer); fragments arriving after their sequence completed start a new pending sequence in the model as they do in the assembler");
     let mut rng = Rng::derive(ctx.seed, 9, 1);
     let max_exh = ctx.pick(6usize, 7usize);
@@ -233,6 +233,27 @@ pub fn run(ctx: &Ctx) {
             ctx.class(&format!("exhaustive/n{}/cuts{}", n, ci));
             ctx.count("exhaustive_orders", count);
         }
+    }
+    // (1b) every fragment (header included) duplicated at every later position of every arrival order, n <= 4 (5 thorough)
+    for n in 2..=ctx.pick(4usize, 5usize) {
+        let len = 3 * n + 2;
+        let msg = message(&mut rng, len);
+        let cuts: Vec<usize> = (1..n).map(|k| k * len / n).collect();
+        let frags = split(0xD0_0000 + n as u64, &msg, &cuts);
+        let mut count = 0u64;
+        permutations(n, &mut |perm| {
+            for dup in 0..n {
+                for at in dup + 1..=n {
+                    let mut history: Vec<Frag> = perm.iter().map(|i| frags[*i].clone()).collect();
+                    let f = history[dup].clone();
+                    history.insert(at, f);
+                    run_history(ctx, &history, &frags, &format!("all-orders n={} arrival {} again at {}", n, dup, at));
+                    count += 1;
+                }
+            }
+        });
+        ctx.class(&format!("exhaustive-duplicates/n{}", n));
+        ctx.count("exhaustive_duplicate_histories", count);
     }
     ctx.extra("exhaustive_up_to_n", json!(max_exh));
     // (2) random orders, bigger counts, noise
@@ -275,11 +296,12 @@ pub fn run(ctx: &Ctx) {
         let noise = rng.below(5);
         match noise {
             1 => {
-                // duplicates (before completion): duplicate a random fragment right after itself
-                let i = rng.below(history.len());
-                let f = history[i].clone();
-                if !f.header {
-                    history.insert(i + 1, f);
+                // duplicates: 1..3 fragments (headers included) arrive again, right away or anywhere later
+                for _ in 0..1 + rng.below(3) {
+                    let i = rng.below(history.len());
+                    let f = history[i].clone();
+                    let at = if rng.bool() { i + 1 } else { i + 1 + rng.below(history.len() - i) };
+                    history.insert(at, f);
                 }
             }
             2 => {
